@@ -491,6 +491,13 @@ func (e *Env) evalIndex(t *EIndex) (Val, error) {
 	return Val{}, e.errf("cannot index %s", v.Ty)
 }
 
+func pow2Term(k string) string {
+	if n, ok := new(big.Int).SetString(k, 10); ok && n.Sign() >= 0 && n.IsInt64() && n.Int64() <= 256 {
+		return new(big.Int).Lsh(big.NewInt(1), uint(n.Int64())).String()
+	}
+	return fmt.Sprintf("(pow2 %s)", k)
+}
+
 func isNumeric(t types.Type) bool {
 	return t == mathInt || isInteger(t)
 }
@@ -566,9 +573,9 @@ func (e *Env) evalBinary(t *EBinary) (Val, error) {
 	case "%":
 		return Val{T: modTerm(a.T, b.T), Ty: mathInt}, nil
 	case "<<":
-		return Val{T: fmt.Sprintf("(* %s (pow2 %s))", a.T, b.T), Ty: mathInt}, nil
+		return Val{T: fmt.Sprintf("(* %s %s)", a.T, pow2Term(b.T)), Ty: mathInt}, nil
 	case ">>":
-		return Val{T: fmt.Sprintf("(div %s (pow2 %s))", a.T, b.T), Ty: mathInt}, nil
+		return Val{T: fmt.Sprintf("(div %s %s)", a.T, pow2Term(b.T)), Ty: mathInt}, nil
 	case "&":
 		if m, ok := maskBits(b.T); ok {
 			return Val{T: fmt.Sprintf("(mod %s %s)", a.T, m), Ty: mathInt}, nil
